@@ -281,6 +281,18 @@ def run(ck, tier):
     t0 = time.time()
     events, summary = record(binary, ck.seed, n, "c10", tier)
     vf.log("[c10] recorded %d events (%d stuck, %d skipped) in %.1fs" % (len(events), summary["stuck"], summary["skipped"], time.time() - t0))
+    corrupt = os.environ.get("VERIF_C10_CORRUPT")
+    if corrupt:
+        # demonstration hook (BUILD_GUIDE, definition of done 3): flip one bit of one recorded result
+        i = int(corrupt)
+        tgt = [j for j, e in enumerate(events) if e["op"] in ("mul", "add", "inv", "exp", "eq") and not e.get("dir") and "timeout" not in e][i]
+        e = events[tgt]
+        if e["op"] == "eq":
+            e["eq"] ^= 1
+        else:
+            e["r"][0] = (e["r"][0] + [0])[:]
+            e["r"][0][0] ^= 1
+        vf.log("[c10] corrupted event %d: %s" % (tgt, json.dumps({k: e[k] for k in ("f", "d", "op", "sc", "k")})))
     nscen = coverage(ck, events, summary)
     t0 = time.time()
     rejected, states, trans = validate(events, "c10")
